@@ -19,7 +19,9 @@ import itertools, time
 from vlib.engine import Check, Verdict, explore, map_cases
 from vlib import report, runner as R
 
-TARGETS = [("foo", "fop"), ("125", "126"), ("héé", "héè")]
+TARGETS = [("foo", "fop"), ("125", "126"), ("héé", "héè"), ("a", "b"), ("é", "è"), ("7", "8"), ("", "a")]
+# producers whose meaning for an empty content would need a model of its own (separators around nothing): left out for ""
+NOT_FOR_EMPTY = ("split", "split_last", "regexp", "tuple_iter", "mapkey")
 
 
 def producers(t):
@@ -27,14 +29,14 @@ def producers(t):
     up = t.upper()
     out = {
         "literal": q,
-        "concat": "'%s' + '%s'" % (t[0], t[1:]),
+        "concat": "'%s' + '%s'" % (t[:1], t[1:]),
         "interp": "'%s${'%s'}'" % (t[:2], t[2:]),
         "slice": "'x%sx'.slice(1, %d)" % (t, 1 + len(t)),
         "split": "'a %s b'.split(' ').list()[1]" % t,
         "chars": "'%s'.iter().reduce('', |a, c| a + c)" % t,
         "downCase": "'%s'.downCase()" % up,
         "trim": "'  %s '.trim()" % t,
-        "imported": "K%s" % ("A" if t in ("foo", "125", "héé") else "B"),
+        "imported": "K%s" % ("A" if t in [a for a, _ in TARGETS] else "B"),
         "mapkey": "{'%s': 1}.iter().first()[0]" % t,
         "param": "(|s| s + '')('%s')" % t,
     }
@@ -46,6 +48,26 @@ def producers(t):
     out["split_last"] = "'q,%s'.split(',').last()" % t
     out["regexp"] = "RegExp('x(.+)').captures('x%s')[1]" % t
     out["tuple_iter"] = "('z', '%s').iter().skip(1).first()" % t
+    if t == t.upper():
+        out["upCase"] = "'%s'.upCase()" % t.lower()   # a result equal to the receiver
+    if len(t) == 1 and t.isascii():
+        out["index"] = "'x%sx'[1]" % t
+        if t.isdigit():
+            out["list_str"] = "[%s].str().slice(1, -1)" % t
+    if len(t) <= 1:
+        out["concat_empty"] = "'' + '%s' + ''" % t
+        out["slice_all"] = "'%s'.slice()" % t
+    if t == "":
+        for k in NOT_FOR_EMPTY:
+            out.pop(k, None)
+        # nothing between, before and behind separators
+        out["split_mid"] = "'x,,y'.split(',').list()[1]"
+        out["split_lead"] = "',x'.split(',').first()"
+        out["split_trail"] = "'x,'.split(',').last()"
+    if t == "a":
+        out["split_mid"] = "'x,a,y'.split(',').list()[1]"
+        out["split_lead"] = "'a,x'.split(',').first()"
+        out["split_trail"] = "'x,a'.split(',').last()"
     if t.isdigit():
         out["numstr"] = "%s.str()" % t
         out["numinterp"] = "'${%s}'" % t
@@ -221,10 +243,11 @@ def long_programs():
 def build_programs(tier):
     progs = special_programs() + name_programs() + long_programs()
     for t, t2 in TARGETS:
-        names = list(producers(t))
+        names = [n for n in producers(t) if n in producers(t2)]
         light = (t != "foo")
         for pn, qn in itertools.product(names, repeat=2):
-            if light and not (pn in ("literal", "concat", "numstr", "chars", "mapkey", "numinterp", "parse_str", "regexp") or qn in ("numstr", "slice", "errmsg")):
+            if light and not (pn in ("literal", "concat", "numstr", "chars", "mapkey", "numinterp", "parse_str", "regexp", "upCase", "index", "list_str", "concat_empty", "slice_all", "split_mid", "split_lead", "split_trail")
+                              or qn in ("numstr", "slice", "errmsg", "upCase", "index", "concat_empty", "slice_all", "split_mid", "split_trail")):
                 continue
             for equal in (True, False):
                 for prefix in (False, True):
@@ -241,7 +264,7 @@ def main(tier):
     res = map_cases([{"files": p["files"], "entry": "/v/main.lay", "gc": {"mode": "never"}, "step_limit": 500000} for p in progs])
     base = [r.get("allocs") if r and r.get("class") == "ok" else None for r in res]
     chk = C09(progs, base)
-    chk.rule = ("%d programs = ordered producer pairs over 3 content families x {equal, one character different} x {plain, equal string created-dropped-collected first}; "
+    chk.rule = ("%d programs = ordered producer pairs over 7 content families (three characters, one character, empty; ASCII, digits, two-byte characters) x {equal, one character different} x {plain, equal string created-dropped-collected first}; "
                 "schedules: never, every x {nursery, full, natural} in two allocator modes, every (quick: every 3rd for the main family) allocation point x {nursery, full}; "
                 "each run ends with a full collection + intern-table audit. non-trivial = run with at least one forced collection besides the final one" % len(progs))
     merged = explore(chk, tier, cap_s=(1500 if tier == "thorough" else 200))
